@@ -4,7 +4,7 @@
 From Coq Require Import NArith List Bool Arith Lia.
 From CL Require Import Base.Sx Base.Res Base.Str Regex.Rx Regex.RxLemmas Model.Pattern Model.Matcher
   Proofs.MatcherSpec Proofs.MatcherSound Proofs.MatcherExpand Proofs.MatcherComplete
-  Proofs.MatcherFinal Proofs.PatternFuel.
+  Proofs.MatcherFinal Proofs.PatternFuel Proofs.AndroidProofs.
 Import ListNotations.
 
 (* A fully bound pattern (literals and bound variables only) expands to a path
@@ -116,3 +116,33 @@ Proof. split; vm_compute; reflexivity. Qed.
 Theorem C12_expand_terminates_android_cycle_refuted : exists e n,
   forall fuel rm, expand_node fuel e rm n = Raise OutOfFuel.
 Proof. exists cyclic_env, (NAndroid false). exact android_cycle. Qed.
+
+(* Android locale codes.  [to_android] is AndroidLocale._get_android_locale on
+   the expanded locale, [to_bcp47] the android_locale -> locale step of
+   Matcher.match; both run the engine on the regexes written in the source.
+   Grammar: a language of 2 or 3 lower-case letters that is not one of the
+   legacy codes iw / in / ji, optionally a script (one upper-case letter and
+   three lower-case ones), optionally a region of two upper-case letters.
+   On it the conversion to the resource qualifier and back is the identity. *)
+Theorem C12_android_roundtrip : forall l, bcp47_grammar l ->
+  (do a <- to_android l; to_bcp47 a) = Ok l.
+Proof. exact android_roundtrip. Qed.
+
+(* he-Latn-IL is in the grammar; its qualifier is b+iw+Latn+IL *)
+Example C12_android_example :
+  bcp47_grammar (of_ascii [104;101;45;76;97;116;110;45;73;76]) /\
+  to_android (of_ascii [104;101;45;76;97;116;110;45;73;76])
+    = Ok (of_ascii [98;43;105;119;43;76;97;116;110;43;73;76]) /\
+  to_android (of_ascii [105;100;45;73;68]) = Ok (of_ascii [105;110;45;114;73;68]) /\   (* id-ID -> in-rID *)
+  to_bcp47 (of_ascii [105;110;45;114;73;68]) = Ok (of_ascii [105;100;45;73;68]).
+Proof.
+  split; [|repeat split; vm_compute; reflexivity].
+  exists (of_ascii [104;101]), (of_ascii [45;76;97;116;110;45;73;76]). split; [reflexivity|]. split.
+  - apply L_two; unfold lower; simpl; try lia; reflexivity.
+  - apply T_both; unfold lower, upper; simpl; lia.
+Qed.
+
+(* the exclusion of the legacy codes is necessary: iw comes back as he *)
+Theorem C12_android_roundtrip_legacy_refuted : exists l,
+  (do a <- to_android l; to_bcp47 a) = Ok (of_ascii [104;101]) /\ l <> of_ascii [104;101].
+Proof. exists (of_ascii [105;119]). split; [vm_compute; reflexivity|discriminate]. Qed.
